@@ -222,9 +222,35 @@ def op_place(op):
     return None
 
 
+_ESC = {"n": 10, "r": 13, "t": 9, "0": 0, "\\": 92, "'": 39, '"': 34}
+
+
+def _char_value(text):
+    """code point of a Rust char literal as printed by rustc (`'a'`, `'\\n'`, `'\\u{7f}'`), or None"""
+    if len(text) < 3 or text[0] != "'" or text[-1] != "'":
+        return None
+    body = text[1:-1]
+    if len(body) == 1:
+        return ord(body)
+    if body.startswith("\\u{") and body.endswith("}"):
+        try:
+            return int(body[3:-1], 16)
+        except ValueError:
+            return None
+    if len(body) == 2 and body[0] == "\\":
+        return _ESC.get(body[1])
+    return None
+
+
 def op_const(op):
     if op is not None and "const" in op:
-        return op["const"]
+        c = op["const"]
+        # constants of range patterns (`'a'..='z'`) are exported without their scalar value: recover it from the literal
+        if c.get("ty") == "char" and c.get("int") is None and isinstance(c.get("c"), str):
+            v = _char_value(c["c"])
+            if v is not None:
+                c["int"] = v
+        return c
     return None
 
 
